@@ -1,7 +1,7 @@
 (* C12 — Checkpoints restore to exactly the checkpointed state.
    Only statements; proofs are in Ckpt/*.v.  Model: Ckpt/Model.v. *)
 From Verif Require Import Lib.Base Mkvs.Trie Mkvs.TrieProofs Mkvs.HashProofs
-  Ckpt.Model Ckpt.Proofs Ckpt.ParProofs Ckpt.RestoreProofs Ckpt.Examples Ckpt.Main Ckpt.Stack Ckpt.StackProofs Gen.CkptConsts.
+  Ckpt.Model Ckpt.Proofs Ckpt.ParProofs Ckpt.RestoreProofs Ckpt.Examples Ckpt.Main Ckpt.Stack Ckpt.StackProofs Ckpt.EstProofs Ckpt.StackSim Gen.CkptConsts.
 From Coq Require Import Permutation.
 
 (* sequential chunker: the key runs visited by the chunks, concatenated, are
@@ -162,26 +162,68 @@ Proof. exact restore_history_exact_l. Qed.
 Print Assumptions restore_history_exact.
 
 (* second model layer: the port of the parallel chunker's subtree{path,pending}
-   stack machine with the proof builder's included set (Ckpt/Stack.v).
-   PARTIAL: splitTasks (10 iterations, early return), the lock-step rounds and
-   the filtering of finished tasks preserve any simulation R between stack
-   tasks and count tasks, so the port then produces exactly the chunks and
-   runs of the count abstraction (to which chunks_cover, restore_any_order,
-   metadata_deterministic apply).  MISSING: a proof that the concrete
-   representation relation satisfies the three one-step premises (one
-   nextChunk incl. trim, one split, hasNext); these are validated by
-   evaluation only (Stack.run_both on every correspondence case). *)
-Theorem par_stack_refines_count_partial : forall H t size (R : stask -> task -> Prop),
-  (forall s c, R s c -> Forall2 R (s_split s) (split c)) ->
-  (forall s c, R s c ->
-     exists s', s_next_chunk H t size s =
-                Some (chunk_of H (inrun (task_run size c)) t, task_run size c, s') /\
-                R s' (advance size c)) ->
-  (forall s c, R s c -> s_finished s = negb (unfinished c)) ->
-  forall threads, t <> Nil -> R (new_stask t) (mk t 0 0%nat) ->
+   stack machine with the proof builder's included set and size estimate
+   (Ckpt/Stack.v: nextChunk incl. the break rule and trim, split, splitTasks
+   with its iteration bound and early return, lock-step rounds, hasNext)
+   REFINES the count abstraction, for every well-formed non-empty tree, chunk
+   size and thread count: it terminates within its fuel, every chunk it emits
+   (the proof built from the included set) is the chunk of the count model and
+   the leaves it visits are the model's runs.  The representation relation
+   (pending stack after trim = the canonical chain of partially visited
+   ancestors of the next key; path = chain of ancestors of the subtree root)
+   and the three one-step facts are in Ckpt/StackSim.v. *)
+Theorem par_stack_refines_count : forall H t, wf t -> forall size threads, t <> Nil ->
   exists res,
     s_par H size threads t = Some (res, []) /\
     map snd res = fst (par_runs size threads t) /\
     map fst res = par_chunks H size threads t.
-Proof. exact par_stack_refines_count_partial_l. Qed.
-Print Assumptions par_stack_refines_count_partial.
+Proof. exact par_stack_refines_count_l. Qed.
+Print Assumptions par_stack_refines_count.
+
+(* ... hence chunks_cover, chunks_verify, restore_any_order,
+   restore_history_exact and metadata_deterministic are statements about the
+   chunk list of the ported stack machine *)
+Theorem stack_port_chunks : forall H t, wf t -> forall size n, t <> Nil ->
+  exists res, s_par H size (S n) t = Some (res, []) /\ map fst res = chunks H size (S n) t.
+Proof. exact Main.stack_port_chunks_l. Qed.
+Print Assumptions stack_port_chunks.
+
+(* the size estimate.  (a) the proof builder port: after any sequence of
+   Include calls the estimate is the sum of 1 + len(serialized) over the
+   distinct included nodes (an inline leaf that was also visited is counted
+   twice: Example double_count_of_inline_leaf in Ckpt/EstProofs.v) *)
+Theorem proof_builder_size_is_sum : forall ns,
+  let pb := fold_left (fun pb n => include n pb) ns (mkpb [] 0) in
+  NoDup (inc pb) /\ psize pb = nsize_sum (inc pb) /\
+  forall m, In m (inc pb) <-> (In m ns /\ m <> Nil).
+Proof. exact pb_size_is_sum_l. Qed.
+Print Assumptions proof_builder_size_is_sum.
+
+(* (b) the boundary rule of one chunk over the remaining keys [l] (both
+   chunkers): before its last key the estimate was below the chunk size, and
+   unless the keys ran out the estimate has reached the chunk size *)
+Theorem chunk_boundary_rule : forall size l,
+  let n := length (next_run size l) in
+  ((2 <= n)%nat -> run_est (firstn (n - 1) l) < size) /\
+  ((n < length l)%nat -> size <= run_est (firstn n l)) /\
+  (l <> [] -> (1 <= n)%nat).
+Proof. exact next_run_bound_l. Qed.
+Print Assumptions chunk_boundary_rule.
+
+(* (c) the bound the chunker relies on: the estimate of a chunk is below
+   chunk size + the cost of the root-to-leaf path of its last key; a one-key
+   chunk costs exactly that path *)
+Theorem chunk_size_bound : forall size A s d,
+  let l := skipn d (annot A s) in
+  let n := length (next_run size l) in
+  forall a, nth_error l (n - 1) = Some a -> (1 <= n)%nat ->
+  (n = 1%nat -> run_est (firstn n l) = afull a) /\
+  ((2 <= n)%nat -> run_est (firstn n l) < size + afull a).
+Proof. exact chunk_size_bound_l. Qed.
+Print Assumptions chunk_size_bound.
+
+(* (d) the sequential chunker is the same rule iterated with a fresh builder *)
+Theorem seq_is_iterated_next_run : forall size t,
+  contents t <> [] -> seq_runs size t = iter_runs (length (contents t)) size (annot 0 t).
+Proof. exact seq_runs_iter_l. Qed.
+Print Assumptions seq_is_iterated_next_run.
